@@ -231,6 +231,28 @@ Theorem sweep_row_judgement_scale_invariant : forall k d div obs,
 Proof. exact classify_row_scale_lemma. Qed.
 Print Assumptions sweep_row_judgement_scale_invariant.
 
+(* the boundary of the known finding K1 as the sweep judges it: an answer naming a table value that does not convert
+   back counts as the known inexact hit only STRICTLY within 1/1000 quarter (the documented eps) of that value *)
+Theorem known_table_hit_strictly_within_eps : forall d div ty dots,
+  classify_row d div (Some (ty, dots, None)) = 2 ->
+  exists tv, table_value (ty, dots, None) = Some tv
+    /\ (Qabs (inject_Z d / inject_Z div - tv) < 1 # 1000)%Q.
+Proof. exact known_table_hit_strictly_within_eps_lemma. Qed.
+Print Assumptions known_table_hit_strictly_within_eps.
+
+(* both sides inhabited: a known hit; one division off a dotted whole / a long with three dots at 960 divisions
+   (1/960 quarter) is a violation and not what the model of the code answers; exactly 1/1000 away is class 5 *)
+Theorem one_division_off_is_a_violation :
+  classify_row 15 950 (Some ("256th"%string, 0, None)) = 2
+  /\ classify_row 5761 960 (Some ("whole"%string, 1, None)) = 4
+  /\ classify_row 5759 960 (Some ("whole"%string, 1, None)) = 4
+  /\ classify_row 28801 960 (Some ("long"%string, 3, None)) = 4
+  /\ classify_row 469 250 (Some ("quarter"%string, 3, None)) = 5
+  /\ estimate 5761 960 = ENone /\ estimate 28801 960 = ENone
+  /\ estimate 5760 960 = ESome ("whole"%string, 1, None).
+Proof. exact one_division_off_is_a_violation_lemma. Qed.
+Print Assumptions one_division_off_is_a_violation.
+
 (* ------------------------------------------------------------------ O3 under a changing divisions value *)
 (* Model.C11_Norm: tie_notes on a part whose divisions value changes (Part.set_quarter_duration);
    dm lists (time, divisions); div_at dm t is the value in force at t.  The correspondence of
